@@ -69,19 +69,18 @@ def showNumOpts (l : List (Nat × Bytes)) : String :=
 
 def dstText : Bytes := "192.0.2.1".toUTF8.toList
 
-/-- S for uri2opts: Uri-Port iff it differs from the scheme's default, then the Uri-Path and Uri-Query values
-(RFC 7252 §6.4 steps 5, 8, 9; Uri-Host is not compared, D4) -/
+/-- S for uri2opts: RFC 7252 §6.4 steps 5–9 as `Spec.Uri.uriOptions` composes them (the definition the theorems
+`uri_into_optlist_eq_spec` / `uri_to_options_eq_spec` are about): Uri-Host (only where S defines its value; the judge
+does not compare it, D4), Uri-Port iff not the scheme's default, the Uri-Path and Uri-Query values. -/
 def specUri2Opts (s : Bytes) : String :=
   match Spec.Uri.splitUri specSchemes false s with
   | none => "rej"
   | some u =>
-    match Spec.Uri.splitPath u.path, Spec.Uri.splitQuery u.query with
+    match Spec.Uri.pathOptions u.path, Spec.Uri.queryOptions u.query with
     | some ps, some qs =>
-      let dflt := match specSchemes.find? (fun e => e.2.2.2 == u.scheme) with
-                  | some e => e.2.1
-                  | none => 5683
-      let port : List (Nat × Bytes) := if u.port ≠ dflt then [(7, MU.encodeVar u.port)] else []
-      "ok " ++ showNumOpts (port ++ (Spec.Uri.norm ps).map (fun v => (11, v)) ++ (Spec.Uri.norm qs).map (fun v => (15, v)))
+      let host : List (Nat × Bytes) := (Spec.Uri.hostOption dstText u.host).getD []
+      "ok " ++ showNumOpts (host ++ Spec.Uri.portOption specSchemes u.scheme u.port ++
+                            ps.map (fun v => (11, v)) ++ qs.map (fun v => (15, v)))
     | _, _ => "rej"
 
 def step (op : String) (args : List String) : String :=
